@@ -17,13 +17,13 @@
 (*                          departures) also shows is tagged with the        *)
 (*                          departure classes that explain it                *)
 (***************************************************************************)
-EXTENDS NetPol, Json
+EXTENDS PolicyManager, Json
 
 CONSTANT TraceFile
 Trace == ndJsonDeserialize(TraceFile)
 
-VARIABLES l, tid, U, c, K, K0, Kprev, viol, stats
-vars == <<l, tid, U, c, K, K0, Kprev, viol, stats>>
+VARIABLES l, tid, U, c, K, K0, Kprev, viol, stats, mgr, div
+vars == <<l, tid, U, c, K, K0, Kprev, viol, stats, mgr, div>>
 
 ToSet(s) == {s[i] : i \in 1..Len(s)}
 Has(e, f) == f \in DOMAIN e
@@ -53,7 +53,8 @@ Init ==
     /\ U = [addrs |-> {}, blocks |-> Emp, plen |-> Emp, unstorable |-> {}]
     /\ c = [nss |-> Emp, pods |-> Emp, pols |-> Emp]
     /\ K = [sets |-> Emp, chains |-> Emp] /\ K0 = [sets |-> Emp, chains |-> Emp] /\ Kprev = [sets |-> Emp, chains |-> Emp]
-    /\ stats = [events |-> 0, traces |-> 0, syncs |-> 0, flows |-> 0, denied |-> 0, exactok |-> 0]
+    /\ stats = [events |-> 0, traces |-> 0, syncs |-> 0, flows |-> 0, denied |-> 0, exactok |-> 0, conform |-> 0, judged |-> 0]
+    /\ mgr = NoCluster /\ div = {}
 
 CanonK(k) == [sets |-> NormSets(k.sets),
               chains |-> [n \in DOMAIN k.chains |-> IF OwnedName(n) THEN [bag |-> BagOf(k.chains[n]), seq |-> <<>>] ELSE [bag |-> Emp, seq |-> k.chains[n]]]]
@@ -127,6 +128,24 @@ LineViolations(e, c2, K2) ==
           ELSE IF sync THEN V("Semantics", \E f \in Flows(U) : f.src # f.dst /\ Walk(K2, U, f) # K8sAllows(c2, U, f), "notConverged:" \o xt, [x |-> 0])
           ELSE {})
 
+(* ---- conformance: every recorded step is the step PolicyManager.tla prescribes for that entry point ---- *)
+\* the kernel state the model expects after line e, from the recorded state before it and the manager's memory mgr
+Expected(e, c2) ==
+    LET s == St(K, mgr)
+        pod(k) == IF k \in DOMAIN c2.pods THEN c2.pods[k] ELSE c.pods[k] IN
+    CASE e.ev = "FullSync" -> FullSync(s, U, c2)
+      [] e.ev = "AddPolicy" /\ e.handled -> OnAddPolicy(s, U, c2)
+      [] e.ev = "UpdatePolicy" /\ e.handled -> OnUpdatePolicy(s, U, c2)
+      [] e.ev = "DeletePolicy" /\ e.handled -> OnDeletePolicy(s, U, c2)
+      [] e.ev = "UpdatePod" /\ e.handled -> OnUpdatePod(s, c2, e.obj, c2.pods[e.obj])
+      [] e.ev = "DeletePod" /\ e.handled -> OnDeletePod(s, c2, e.obj, c.pods[e.obj])
+      [] e.ev = "Restart" -> St(K, NoCluster)
+      [] OTHER -> s
+Judged(e) == e.ev # "Reset" /\ ~(Has(e, "fault") /\ e.fault)
+KDiff(a, b) == LET ca == CanonK(a)  cb == CanonK(b) IN
+    [sets |-> {n \in (DOMAIN ca.sets) \cup (DOMAIN cb.sets) : n \notin DOMAIN ca.sets \/ n \notin DOMAIN cb.sets \/ ca.sets[n] # cb.sets[n]},
+     chains |-> {n \in (DOMAIN ca.chains) \cup (DOMAIN cb.chains) : n \notin DOMAIN ca.chains \/ n \notin DOMAIN cb.chains \/ ca.chains[n] # cb.chains[n]}]
+
 Next ==
     /\ l <= Len(Trace)
     /\ l' = l + 1
@@ -134,12 +153,18 @@ Next ==
            c2 == ClusterOfLog(e.cluster)
            K2 == KernelOfLog(e) IN
        /\ c' = c2 /\ K' = K2 /\ Kprev' = K
+       /\ mgr' = IF e.ev = "Reset" THEN NoCluster ELSE Expected(e, c2).m
+       /\ div' = IF Judged(e) /\ CanonK(Expected(e, c2).K) # CanonK(K2)
+                   THEN div \cup {[line |-> l, trace |-> tid, ev |-> e.ev, obj |-> IF Has(e, "obj") THEN e.obj ELSE "", why |-> KDiff(Expected(e, c2).K, K2)]}
+                 ELSE div
        /\ IF e.ev = "Reset"
             THEN /\ tid' = e.trace /\ U' = UniverseOfLog(e) /\ K0' = K2 /\ viol' = viol
                  /\ stats' = [stats EXCEPT !.events = @ + 1, !.traces = @ + 1]
             ELSE /\ tid' = tid /\ U' = U /\ K0' = K0
                  /\ viol' = viol \cup LineViolations(e, c2, K2)
                  /\ stats' = [stats EXCEPT !.events = @ + 1,
+                                           !.judged = @ + (IF Judged(e) THEN 1 ELSE 0),
+                                           !.conform = @ + (IF Judged(e) /\ CanonK(Expected(e, c2).K) = CanonK(K2) THEN 1 ELSE 0),
                                            !.syncs = @ + (IF IsSync(e) THEN 1 ELSE 0),
                                            !.flows = @ + (IF IsSync(e) THEN Cardinality(Flows(U)) ELSE 0),
                                            !.denied = @ + (IF IsSync(e) THEN Cardinality({f \in Flows(U) : ~Walk(K2, U, f)}) ELSE 0),
@@ -149,5 +174,5 @@ Spec == Init /\ [][Next]_vars
 
 Report ==
     l <= Len(Trace) \/
-    PrintT(<<"REPORT", ToJson([lines |-> Len(Trace), consumed |-> l - 1, viol |-> viol, div |-> {}, stats |-> stats])>>)
+    PrintT(<<"REPORT", ToJson([lines |-> Len(Trace), consumed |-> l - 1, viol |-> viol, div |-> div, stats |-> stats])>>)
 =============================================================================
